@@ -6,6 +6,7 @@ import (
 
 	"pgregory.net/rapid"
 
+	"verif/internal/bridge"
 	"verif/internal/gen"
 	"verif/internal/harness"
 	m "verif/internal/model"
@@ -138,6 +139,40 @@ func checkC03(c C03Case, rec *obs.Recorder) *obs.Violation {
 		}
 		if d := base.diff(got); d != "" && !(want.Is(ref.Error)) {
 			return obs.Violf("%s: later blocks in order %v give a different result: %s", desc, c.Perm, d)
+		}
+	}
+
+	// (v) a later block whose own evaluation fails (its rule divides by zero on a matching binding):
+	// authorization fails, and what the authorizer answers afterwards is still the authority-level
+	// closure only -- the failing block's facts and rules are not left behind
+	if base.class != ref.Error && len(c.Queries) > 0 {
+		boom := m.Block{Facts: append(append([]m.Pred{}, c.F.Facts...), m.P("c03_boom_src", m.Int(1)))}
+		boom.Rules = append(append([]m.Rule{}, c.F.Rules...), m.Rule{Head: m.P("c03_boom", m.Var("x")), Body: []m.Pred{m.P("c03_boom_src", m.Var("x"))},
+			Exprs: []*m.Expr{m.Bin("==", m.Bin("/", m.V(m.Var("x")), m.V(m.Int(0))), m.V(m.Int(1)))}})
+		boom.Facts = bridge.DedupFacts(boom.Facts)
+		bpos := (c.Pos / 2) % (len(later) + 1)
+		withBoom := m.Token{Blocks: []m.Block{c.Token.Blocks[0]}}
+		withBoom.Blocks = append(withBoom.Blocks, later[:bpos]...)
+		withBoom.Blocks = append(withBoom.Blocks, boom)
+		withBoom.Blocks = append(withBoom.Blocks, later[bpos:]...)
+		bv := ref.Authorize(withBoom, c.Authz)
+		if !bv.Ambiguous && !bv.Diverged {
+			got, err := observeC03(withBoom, c)
+			if err != nil {
+				return obs.Violf("%s with failing block {%s} at %d: %v", desc, boom.Text(), bpos+1, err)
+			}
+			if !bv.Is(got.class) {
+				return obs.Violf("%s with failing block {%s} at %d: expected %v, got %s", desc, boom.Text(), bpos+1, bv.Classes, got.class)
+			}
+			for i := range base.post {
+				if got.post[i] != base.post[i] {
+					return obs.ViolK("after-failed-block", "%s: with the failing block {%s} at position %d, query %s after Authorize answers {%s}; without that block it answers {%s}", desc, boom.Text(), bpos+1, c.Queries[i].Text(), got.post[i], base.post[i])
+				}
+				if got.pre[i] != base.pre[i] {
+					return obs.ViolK("after-failed-block", "%s: with the failing block {%s} at position %d, query %s without Authorize answers {%s}; without that block it answers {%s}", desc, boom.Text(), bpos+1, c.Queries[i].Text(), got.pre[i], base.pre[i])
+				}
+			}
+			rec.Label("failing-block:" + got.class)
 		}
 	}
 
@@ -284,7 +319,7 @@ func drawC03(t *rapid.T) C03Case {
 func TestC03(t *testing.T) {
 	rec := obs.New("C03")
 	defer rec.Flush(true)
-	rec.SetExtra("rule", "rapid: goal-directed scenario with 1-3 later blocks, a panel of 3-5 queries generalised from authority-level and block-level facts, (i) a check-free block (facts and error-free rules aimed at the failing checks and allow policies) inserted at a drawn position, (ii) a permutation of the later blocks (token rebuilt in that order), (iii) block checks that need facts derived at authority level, (iv) a set carried by an authority-level or authorizer fact that a later block's rule or check computes with (intersection / union / contains) while a panel query reads the fact. Oracle: outcome class, number of failed checks and every panel answer (after Authorize, and on an authorizer that was never authorized) are identical with and without the check-free block and for every block order; panel answers after Authorize equal the reference query over the authority-level closure; the verdict equals the reference. Non-trivial = a (wrong) model in which block facts and rules were authority-level would change the verdict, the failed-check count or a panel answer, or a block check is supported only by a derived authority-level fact; distinct by (token, authorizer, block, position, order).")
+	rec.SetExtra("rule", "rapid: goal-directed scenario with 1-3 later blocks, a panel of 3-5 queries generalised from authority-level and block-level facts, (i) a check-free block (facts and error-free rules aimed at the failing checks and allow policies) inserted at a drawn position, (ii) a permutation of the later blocks (token rebuilt in that order), (iii) block checks that need facts derived at authority level, (iv) a set carried by an authority-level or authorizer fact that a later block's rule or check computes with (intersection / union / contains) while a panel query reads the fact, (v) a later block whose own evaluation fails (its rule divides by zero on a matching binding): authorization fails as the reference says and the panel answers afterwards, on the same authorizer, are those of the token without that block. Oracle: outcome class, number of failed checks and every panel answer (after Authorize, and on an authorizer that was never authorized) are identical with and without the check-free block and for every block order; panel answers after Authorize equal the reference query over the authority-level closure; the verdict equals the reference. Non-trivial = a (wrong) model in which block facts and rules were authority-level would change the verdict, the failed-check count or a panel answer, or a block check is supported only by a derived authority-level fact; distinct by (token, authorizer, block, position, order).")
 	rec.SetExtra("assumptions", []string{"the inserted block's rules are error-free: a rule that raises an error legitimately fails the authorization"})
 	harness.RunWith(t, harness.Spec[C03Case]{ID: "C03", Draw: drawC03, Check: checkC03}, rec)
 }
